@@ -6,6 +6,7 @@ HINTS = {
  "a": "prefer a change in the main control path (ordering, guards, state updates).",
  "n": "prefer a change OUTSIDE the function that most obviously implements the property: a helper two calls away, a sibling package it relies on (pkg/cache, pkg/store, pkg/sync, pkg/p2p, types, core/*, node wiring, configuration defaults), a constructor or option that sets up the state the property depends on, or the interaction of two functions that each stay correct alone. Changes that add a small feature or optimisation (a cache, a fast path, batching, a retry, a metric, a validation) and get one corner wrong are especially welcome.",
  "p": "prefer a change in how a FAILURE or an ABSENCE is handled rather than in the normal path: an error swallowed, logged instead of returned, retried, or wrapped into a different class; a partial result kept (or a side effect left behind) after a failure; a cleanup or rollback skipped on an error path; a timeout or cancellation treated like success or like a permanent fault; a default silently substituted for a value that could not be read; a 'not found' / empty / nil / zero case that takes the wrong branch. The normal path must stay exactly as it is.",
+ "q": "prefer a change in data OWNERSHIP or BOUNDARIES: a slice, map or pointer that is now shared instead of copied (or a buffer that is reused) so that a later mutation shows through somewhere else; an off-by-one or inclusive/exclusive boundary (<= vs <, first/last element, height vs height+1, empty vs nil, zero-length vs absent); a unit or width confusion (bytes vs count, seconds vs milliseconds, uint64 truncated to int/uint32, overflow or wrap-around on an addition or a subtraction of unsigned values); a default value (0, \"\", nil) that is a legal value somewhere else.",
  "o": "prefer a change that alters WHEN something happens rather than WHAT happens (an operation moved before/after another, done once instead of every time, done lazily, deferred, skipped when 'nothing changed', done in the background), or WHICH instance is used (a shared value instead of a fresh one, the wrong one of two similar fields/caches/keys, a stale copy).",
 }
 p = [json.loads(l) for l in open(os.path.join(here, "properties.jsonl")) if json.loads(l)["id"] == pid][0]
